@@ -339,6 +339,13 @@ func (c *SpecCtx) ident(name string) (Term, error) {
 		if t, ok := c.fr.resolveLocal(name, c.block, c.idx, c.state()); ok {
 			return t, nil
 		}
+		// captured variables of a closure
+		for fv, lv := range c.fr.freeL {
+			if fv.Name() == name {
+				t := vc.loadL(lv, c.state())
+				return t, nil
+			}
+		}
 	}
 	if t, ok := c.pkgObject(c.pkg, name); ok {
 		return t, nil
